@@ -161,6 +161,27 @@ func c01Run(w *W, c Case) {
 				w.Eval(1)
 			}
 		}
+		// stepping to the end of the lunar month and just past it (and the places where a 29/30-day assumption would put them)
+		if k.d >= 26 {
+			for _, n := range []int{29 - k.d, 30 - k.d, 31 - k.d} {
+				if n <= 0 || j+n > ref.MaxJDN {
+					continue
+				}
+				ey, em, ed := ref.FromJDN(j + n)
+				want := ref.Stamp{Y: ey, M: em, D: ed, H: st.H, Mi: st.Mi, S: st.S}
+				var ln *calendar.Lunar
+				if pv := Call(func() { ln = l.Next(n) }); pv != nil {
+					w.Violatef("lunar-next", fmt.Sprintf("%s%+d", key, n), "Lunar(%s = %d-%d-%d).Next(%d) panicked: %v", key, k.y, k.m, k.d, n, pv)
+					continue
+				}
+				direct := solarOf(want).GetLunar()
+				if stampOf(ln.GetSolar()) != want || keyOf(ln) != keyOf(direct) {
+					w.Violatef("lunar-next", fmt.Sprintf("%s%+d", key, n), "Lunar(%s).Next(%d) = lunar %v / civil %s, reference civil %s = lunar %v", key, n, keyOf(ln), ln.GetSolar().ToYmdHms(), fmtStamp(want), keyOf(direct))
+				}
+				w.Count("month-end-steps", 1)
+				w.Eval(1)
+			}
+		}
 		prev = l
 		w.Distinct(1)
 	}
